@@ -44,8 +44,8 @@ func vpObjPath(g string, h []byte) string {
 // VP_C01_RoundTrip: id = SHA-1("<kind> <len>\0<bytes>"); stored at objects/xx/yyyy…; retrieved with the same kind and bytes.
 func VP_C01_RoundTrip() {
 	t, kind := vpKind()
-	n := zzvp.Choose(zzvp.Param("payload", 6) + 1)
-	data := zzvp.Bytes("data", n, "")
+	data := zzvp.Bytes("data", zzvp.Choose(zzvp.Param("payload", 6)+1), "")
+	n := len(data) // (a replay may scale the payload beyond one inflate window)
 	g := vpGoit()
 	obj, err := NewObject(t, data)
 	zzvp.Assert(err == nil && obj != nil, "an object can be made from any byte string")
